@@ -1,2 +1,152 @@
-/- Model driver for C18 (line protocol). Stub until the property's model lands. -/
-def main : IO Unit := pure ()
+/-
+  Model driver for C18 (line protocol, see tools/props/c18.py). Imports Model + Gen only.
+
+  One line = one tool invocation:
+
+    xz <mode d|t> <stdout 0|1> <force> <nosparse> <nowarn> <kind r|p> <append> <nonblock> <offset> <content> <nfiles>
+       { <fmtKnown> <initWarn> <initRet> <warn> <ret> <allowTrailing> <trailing> <out> <raw> }*
+      -> exit=<n> trace=<events> off=<n> flags=<a><n> size=<n> content=<bytes> created=<bytes|none>;… ctrace=<events>;…
+
+    xzdec <lzmadec 0|1> <kind> <append> <nonblock> <offset> <content> <nfiles> { <ret> <trailing> <out> }*
+      -> exit=<n> off=<n> size=<n> content=<bytes>
+
+  Bytes travel run-length coded: tokens joined by ',' — `z<N>` N zero bytes, `p<N>:<a>` N non-zero pattern bytes
+  ((a+i) % 251 + 1), `h<hex>` literal; `-` is the empty string. Output bytes are canonical: every maximal zero run of
+  at least 32 bytes is a `z` token, everything between is one `h` token.
+  Events: F<append><nonblock> (F_SETFL), E<ret> (lseek SEEK_END), C<delta>:<ret> (lseek SEEK_CUR), W<n> (write).
+-/
+import XzVerif.Model.Proto
+import XzVerif.Model.Sparse
+import XzVerif.Model.SparseCfg
+open XzVerif XzVerif.Proto XzVerif.Sparse
+
+def cfg : Cfg := genCfg
+
+def patBytes (n a : Nat) : List UInt8 :=
+  (List.range n).map fun i => UInt8.ofNat ((a + i) % 251 + 1)
+
+def parseTok (t : String) : Option (List UInt8) :=
+  match t.toList with
+  | 'z' :: r => (String.ofList r).toNat?.map fun n => List.replicate n 0
+  | 'p' :: r =>
+    match (String.ofList r).splitOn ":" with
+    | [n, a] => do
+      let n ← n.toNat?
+      let a ← a.toNat?
+      pure (patBytes n a)
+    | _ => none
+  | 'h' :: r => bytesOfHexChars r
+  | _ => none
+
+def parseRle (s : String) : Option (List UInt8) :=
+  if s == "-" then some []
+  else (s.splitOn ",").foldlM (fun acc t => do let b ← parseTok t; pure (acc ++ b)) []
+
+structure RleSt where
+  zrun : Nat
+  lit : List UInt8          -- reversed
+  toks : List String        -- reversed
+
+def rleFlushLit (st : RleSt) : RleSt :=
+  if st.lit.isEmpty then st else { st with lit := [], toks := ("h" ++ hexOfBytes st.lit.reverse) :: st.toks }
+
+def rleEndRun (st : RleSt) : RleSt :=
+  if st.zrun ≥ 32 then
+    let st := rleFlushLit st
+    { st with zrun := 0, toks := ("z" ++ toString st.zrun) :: st.toks }
+  else { st with zrun := 0, lit := List.replicate st.zrun 0 ++ st.lit }
+
+def rleStep (st : RleSt) (b : UInt8) : RleSt :=
+  if b == 0 then { st with zrun := st.zrun + 1 }
+  else
+    let st := rleEndRun st
+    { st with lit := b :: st.lit }
+
+def toRle (bs : List UInt8) : String :=
+  if bs.isEmpty then "-"
+  else
+    let st := rleFlushLit (rleEndRun (bs.foldl rleStep { zrun := 0, lit := [], toks := [] }))
+    String.intercalate "," st.toks.reverse
+
+def b01 (b : Bool) : String := if b then "1" else "0"
+
+def evStr : Ev → String
+  | .setfl a n => s!"F{b01 a}{b01 n}"
+  | .seekEnd r => s!"E{r}"
+  | .seekCur d r => s!"C{d}:{r}"
+  | .write n => s!"W{n}"
+
+def traceStr (t : List Ev) : String :=
+  if t.isEmpty then "-" else String.intercalate "," (t.map evStr)
+
+def parseBool (s : String) : Option Bool :=
+  if s == "1" then some true else if s == "0" then some false else none
+
+def parseDest (kind app nb off content : String) : Option Dest := do
+  let k ← if kind == "r" then some Kind.regular else if kind == "p" then some Kind.other else none
+  let a ← parseBool app
+  let n ← parseBool nb
+  let o ← off.toNat?
+  let c ← parseRle content
+  pure { kind := k, content := c, offset := o, flags := { append := a, nonblock := n } }
+
+def parseXzFiles : Nat → List String → Option (List FileIn)
+  | 0, [] => some []
+  | n + 1, fk :: iw :: ir :: w :: r :: at_ :: tr :: out :: raw :: rest => do
+    let fk ← parseBool fk
+    let iw ← iw.toNat?
+    let ir ← ir.toNat?
+    let w ← w.toNat?
+    let r ← r.toNat?
+    let at_ ← parseBool at_
+    let tr ← parseBool tr
+    let out ← parseRle out
+    let raw ← parseRle raw
+    let more ← parseXzFiles n rest
+    pure ({ fmtKnown := fk, initWarn := iw, initRet := Ret.ofCode ir,
+            steps := canonicalSteps cfg w out (Ret.ofCode r), allowTrailing := at_, trailing := tr, raw := raw } :: more)
+  | _, _ => none
+
+def parseDecFiles : Nat → List String → Option (List (List UInt8 × Ret × Bool))
+  | 0, [] => some []
+  | n + 1, r :: tr :: out :: rest => do
+    let r ← r.toNat?
+    let tr ← parseBool tr
+    let out ← parseRle out
+    let more ← parseDecFiles n rest
+    pure ((out, Ret.ofCode r, tr) :: more)
+  | _, _ => none
+
+def runXz (ws : List String) : Option String :=
+  match ws with
+  | mode :: so :: force :: nosp :: nowarn :: kind :: app :: nb :: off :: content :: nf :: rest => do
+    let m ← if mode == "d" then some Mode.decompress else if mode == "t" then some Mode.test else none
+    let o : Opts := { mode := m, toStdout := (← parseBool so), force := (← parseBool force),
+                      noSparse := (← parseBool nosp), noWarn := (← parseBool nowarn) }
+    let d ← parseDest kind app nb off content
+    let files ← parseXzFiles (← nf.toNat?) rest
+    let r := xzRun cfg o files d
+    let created := String.intercalate ";" (r.created.map fun c => match c with | none => "none" | some b => toRle b)
+    let ctr := String.intercalate ";" (r.createdTraces.map traceStr)
+    pure s!"exit={xzExit o r} trace={traceStr r.trace} off={r.out.offset} flags={b01 r.out.flags.append}{b01 r.out.flags.nonblock} size={r.out.content.length} content={toRle r.out.content} created={created} ctrace={ctr}"
+  | _ => none
+
+def runXzdec (ws : List String) : Option String :=
+  match ws with
+  | lz :: kind :: app :: nb :: off :: content :: nf :: rest => do
+    let lz ← parseBool lz
+    let d ← parseDest kind app nb off content
+    let files ← parseDecFiles (← nf.toNat?) rest
+    let (bytes, ex) := xzdecRun lz files
+    let d' := xzdecDeliver d bytes
+    pure s!"exit={ex} off={d'.offset} size={d'.content.length} content={toRle d'.content}"
+  | _ => none
+
+def step (_ : Unit) (ws : List String) : Unit × String :=
+  match ws with
+  | "xz" :: rest => ((), (runXz rest).getD "bad-op")
+  | "xzdec" :: rest => ((), (runXzdec rest).getD "bad-op")
+  | ["cfg"] => ((), s!"bufSize={cfg.bufSize} pendingMax={cfg.pendingMax} failFlush={b01 cfg.failFlush}")
+  | _ => ((), "bad-op")
+
+def main : IO Unit := runLoop step ()
